@@ -385,7 +385,11 @@ func genReuseDoc(r *Run, nd bool) (doc []byte, desc string) {
 	c := r.C
 	large := c.Intn("large", 3) == 2
 	var d Doc
-	if large {
+	if !large && !nd && c.Intn("midsize", 5) == 0 {
+		// below the concurrent-path threshold but spanning several index buffers (dense structurals)
+		d = GenBulkDoc(c, 1500+c.Intn("midsz", 6500), []int{FamDenseArrays, FamDenseObjects, FamZeros, FamNumbers, FamStrings})
+		desc = fmt.Sprintf("mid-dense(%d)", len(d.B))
+	} else if large {
 		target := 8200 + c.Intn("lsz", 60000)
 		if nd {
 			var buf bytes.Buffer
@@ -431,6 +435,9 @@ func genReuseDoc(r *Run, nd bool) (doc []byte, desc string) {
 		desc += " defect=" + defNames[kind]
 	case 2: // stage-2 failures
 		kind := []int{DefMissingComma, DefExtraComma, DefMissingColon, DefBadAtom, DefLeadingZero, DefLoneMinus, DefUnbalanced}[c.Intn("s2def", 7)]
+		if len(d.Sites) == 0 {
+			kind = DefBadByte // families without recorded token sites: a wrong byte at a drawn place
+		}
 		pos := c.Intn("defpos", 4)
 		doc = ApplyDefect(c, d, kind, pos)
 		desc += " defect=" + defNames[kind]
